@@ -29,7 +29,12 @@ def render_lines(node, indent="", out=None, path=()):
     for i, it in enumerate(node["items"]):
         p = path + (i,)
         if it[0] == "k":
-            line = indent + it[1] + ((" " + it[2]) if it[2] != "" else "")
+            # a value that begins with a parenthesis needs no blank after
+            # the key (the key ends where the parenthesis starts): written
+            # both ways
+            glue = it[2][:1] in ("(", ")") and (len(it[1]) + len(p)) % 2 == 0
+            line = indent + it[1] + (
+                (("" if glue else " ") + it[2]) if it[2] != "" else "")
             out.append((line, (p, "key")))
         elif it[0] == "raw":
             out.append((indent + it[1], (p, "raw")))
